@@ -52,6 +52,7 @@ impl Iterator for SrcIter {
     type Item = E;
     fn next(&mut self) -> Option<E> {
         obs::src_enter();
+        sched::src_yield_point();
         let r = match &mut self.finite {
             Some(it) => it.next(),
             None => {
@@ -381,6 +382,7 @@ pub fn run_case(case: &Case) -> RunResult {
         } => (*spin_seed, *spin_max, *src_spin),
         Mode::Sched(_) => (0, 0, 0),
     };
+    set_drop_perturbation(if spin_max > 0 && spin_seed & 1 == 1 { spin_seed | 1 } else { 0 });
     obs::reset(CaseSwitches {
         spin_seed,
         spin_max,
